@@ -379,6 +379,28 @@ class _SubstNames(ast.NodeTransformer):
         return node
 
 
+def _key_test(key: ast.AST, k_: ast.AST) -> Optional[ast.AST]:
+    """The condition ``key == k_`` written the way an if statement would test it (None: cannot hold)."""
+    if isinstance(key, ast.Tuple) and isinstance(k_, ast.Tuple) and len(key.elts) == len(k_.elts):
+        parts = [_key_test(a, b) for a, b in zip(key.elts, k_.elts)]
+        if any(p_ is None for p_ in parts):
+            return None
+        return parts[0] if len(parts) == 1 else ast.BoolOp(op=ast.And(), values=parts)
+    if isinstance(key, ast.IfExp) and isinstance(key.body, ast.Constant) and isinstance(key.orelse, ast.Constant) \
+            and isinstance(k_, ast.Constant) and key.body.value != key.orelse.value:
+        # ("upper" if flag else "lower") == "upper"  is  flag
+        if k_.value == key.body.value and type(k_.value) is type(key.body.value):
+            return copy.deepcopy(key.test)
+        if k_.value == key.orelse.value and type(k_.value) is type(key.orelse.value):
+            return ast.UnaryOp(op=ast.Not(), operand=copy.deepcopy(key.test))
+        return None
+    if isinstance(k_, ast.Constant) and k_.value is True:
+        return copy.deepcopy(key)
+    if isinstance(k_, ast.Constant) and k_.value is False:
+        return ast.UnaryOp(op=ast.Not(), operand=copy.deepcopy(key))
+    return ast.Compare(left=copy.deepcopy(key), ops=[ast.Eq()], comparators=[copy.deepcopy(k_)])
+
+
 def expand_callable_tables(trees: Dict[str, ast.Module]) -> List[str]:
     """``TABLE[key](args)`` (directly, or through a local bound once to ``TABLE[key]``) where TABLE is a module- / class-level
     dict display whose values are all lambdas or plain function names becomes the chain
@@ -465,12 +487,9 @@ def expand_callable_tables(trees: Dict[str, ast.Module]) -> List[str]:
                         else:
                             body = ast.Call(func=copy.deepcopy(v), args=[copy.deepcopy(a) for a in node.args],
                                             keywords=[copy.deepcopy(k) for k in node.keywords])
-                        if isinstance(k_, ast.Constant) and k_.value is True:
-                            test = copy.deepcopy(key)
-                        elif isinstance(k_, ast.Constant) and k_.value is False:
-                            test = ast.UnaryOp(op=ast.Not(), operand=copy.deepcopy(key))
-                        else:
-                            test = ast.Compare(left=copy.deepcopy(key), ops=[ast.Eq()], comparators=[copy.deepcopy(k_)])
+                        test = _key_test(key, k_)
+                        if test is None:
+                            continue  # the key expression can never take this entry's key
                         alts.append((test, body))
                     return alts
 
@@ -543,3 +562,310 @@ def expand_callable_tables(trees: Dict[str, ast.Module]) -> List[str]:
             tree.body = [st for st in tree.body if not (isinstance(st, ast.Assign) and len(st.targets) == 1 and isinstance(st.targets[0], ast.Name)
                                                         and st.targets[0].id in mod_tables and st.targets[0].id not in still)]
     return done
+
+
+# ---------------------------------------------------------------------------------------------------- loop ... else
+def expand_loop_else(trees: Dict[str, ast.Module]) -> List[str]:
+    """``for ...: ... break ... else: E`` is the flag idiom written with syntax: E runs exactly when the loop was not left by a
+    ``break`` of its own.  It is rewritten into the flag form the analyses model::
+
+        loop_left_by_break_1 = False
+        for ...:
+            ...
+                loop_left_by_break_1 = True
+                break
+        if not loop_left_by_break_1:
+            E
+
+    (only loops that have both an ``else`` block and a ``break`` of their own; an ``else`` without a break always runs and is
+    simply appended)."""
+    applied: List[str] = []
+
+    def own_breaks(loop) -> List[Tuple[list, int]]:
+        out = []
+
+        def scan(stmts: list):
+            for i, s in enumerate(stmts):
+                if isinstance(s, ast.Break):
+                    out.append((stmts, i))
+                elif isinstance(s, (ast.For, ast.While, ast.AsyncFor)):
+                    scan(s.orelse)  # a break in the else block of an inner loop belongs to the outer loop
+                elif isinstance(s, (ast.FunctionDef, ast.AsyncFunctionDef, ast.ClassDef)):
+                    continue
+                else:
+                    for fld in ("body", "orelse", "finalbody"):
+                        blk = getattr(s, fld, None)
+                        if isinstance(blk, list):
+                            scan(blk)
+                    for h in getattr(s, "handlers", []) or []:
+                        scan(h.body)
+                    for c in getattr(s, "cases", []) or []:
+                        scan(c.body)
+
+        scan(loop.body)
+        return out
+
+    class T(ast.NodeTransformer):
+        def __init__(self, mod: str):
+            self.mod = mod
+            self.counter = 0
+
+        def _loop(self, node):
+            self.generic_visit(node)
+            if not node.orelse:
+                return node
+            brs = own_breaks(node)
+            orelse, node.orelse = node.orelse, []
+            if not brs:
+                applied.append(f"{self.mod}:{node.lineno} loop-else without a break appended after the loop")
+                return [node] + orelse
+            self.counter += 1
+            flag = f"loop_left_by_break_{self.counter}"
+
+            def assign(v: bool, at):
+                return ast.copy_location(ast.Assign(targets=[ast.Name(id=flag, ctx=ast.Store())], value=ast.Constant(value=v)), at)
+
+            for stmts, i in sorted(brs, key=lambda t: -t[1]):
+                stmts.insert(i, assign(True, stmts[i]))
+            test = ast.copy_location(ast.UnaryOp(op=ast.Not(), operand=ast.Name(id=flag, ctx=ast.Load())), orelse[0])
+            tail = ast.copy_location(ast.If(test=test, body=orelse, orelse=[]), orelse[0])
+            applied.append(f"{self.mod}:{node.lineno} loop-else rewritten with the flag {flag}")
+            return [ast.fix_missing_locations(assign(False, node)), node, ast.fix_missing_locations(tail)]
+
+        visit_For = _loop
+        visit_While = _loop
+
+    for mod, tree in trees.items():
+        T(mod).visit(tree)
+    return applied
+
+
+# ---------------------------------------------------------------------------------------------------- t = f(); a = t[0]; b = t[1]
+TORCH_RESULT_ARITY = {"cholesky_ex": 2, "eigh": 2, "qr": 2, "slogdet": 2, "sort": 2, "topk": 2, "lu_factor": 2, "inv_ex": 2}
+
+
+def destructure_indexed_results(trees: Dict[str, ast.Module]) -> List[str]:
+    """``t = f(...); a = t[0]; b = t[1]`` (consecutive statements; ``t`` is read nowhere else in the function; ``f`` returns a
+    tuple of exactly that many values - a torch function of known arity or a package function whose every return is a tuple
+    display of that length) is the tuple assignment ``a, b = f(...)`` written out; it is analysed as the tuple assignment."""
+    applied: List[str] = []
+    arity: Dict[str, Optional[int]] = {}
+    for tree in trees.values():
+        for fn in ast.walk(tree):
+            if isinstance(fn, ast.FunctionDef):
+                rets = [n for n in _own_nodes(fn) if isinstance(n, ast.Return)]
+                ar = {len(r.value.elts) if isinstance(r.value, ast.Tuple) and not any(isinstance(x, ast.Starred) for x in r.value.elts)
+                      else None for r in rets}
+                a = next(iter(ar)) if len(ar) == 1 else None
+                arity[fn.name] = a if fn.name not in arity else (a if arity[fn.name] == a else None)
+
+    def result_arity(call: ast.Call) -> Optional[int]:
+        f = call.func
+        leaf = f.attr if isinstance(f, ast.Attribute) else (f.id if isinstance(f, ast.Name) else None)
+        if leaf is None:
+            return None
+        d = []
+        x = f
+        while isinstance(x, ast.Attribute):
+            d.append(x.attr)
+            x = x.value
+        root = x.id if isinstance(x, ast.Name) else None
+        if root == "torch" and leaf in TORCH_RESULT_ARITY:
+            return TORCH_RESULT_ARITY[leaf]
+        if isinstance(f, ast.Name) or root in ("self", "cls"):
+            return arity.get(leaf)
+        return None
+
+    for mod, tree in trees.items():
+        for fn in [n for n in ast.walk(tree) if isinstance(n, ast.FunctionDef)]:
+            loads: Dict[str, int] = {}
+            for x in _own_nodes(fn):
+                if isinstance(x, ast.Name) and isinstance(x.ctx, ast.Load):
+                    loads[x.id] = loads.get(x.id, 0) + 1
+            sites = []  # (block, index, name, targets)
+            consumed: Dict[str, int] = {}
+
+            def scan(block: List[ast.stmt]):
+                for i, st in enumerate(block):
+                    if isinstance(st, ast.Assign) and len(st.targets) == 1 and isinstance(st.targets[0], ast.Name) \
+                            and isinstance(st.value, ast.Call):
+                        t = st.targets[0].id
+                        n = result_arity(st.value)
+                        tg = []
+                        for k, s2 in enumerate(block[i + 1:]):
+                            if isinstance(s2, ast.Assign) and len(s2.targets) == 1 and isinstance(s2.targets[0], ast.Name) \
+                                    and isinstance(s2.value, ast.Subscript) and isinstance(s2.value.value, ast.Name) \
+                                    and s2.value.value.id == t and isinstance(s2.value.slice, ast.Constant) \
+                                    and s2.value.slice.value == k and s2.targets[0].id != t:
+                                tg.append(s2.targets[0])
+                            else:
+                                break
+                        if n is not None and len(tg) == n and n >= 2:
+                            sites.append((block, i, t, tg))
+                            consumed[t] = consumed.get(t, 0) + n
+                    if isinstance(st, (ast.FunctionDef, ast.AsyncFunctionDef, ast.ClassDef)):
+                        continue
+                    for fld in ("body", "orelse", "finalbody"):
+                        b = getattr(st, fld, None)
+                        if isinstance(b, list):
+                            scan(b)
+                    for h in getattr(st, "handlers", []) or []:
+                        scan(h.body)
+
+            scan(fn.body)
+            for block, i, t, tg in sorted(sites, key=lambda s_: -s_[1]):
+                if loads.get(t, 0) != consumed.get(t, 0):
+                    continue
+                st = block[i]
+                new = ast.Assign(targets=[ast.Tuple(elts=[ast.Name(id=x.id, ctx=ast.Store()) for x in tg], ctx=ast.Store())],
+                                 value=st.value)
+                ast.copy_location(new, st)
+                ast.fix_missing_locations(new)
+                block[i:i + 1 + len(tg)] = [new]
+                applied.append(f"{mod}:{fn.name}: indexed result `{t}` at line {st.lineno} read as a tuple assignment")
+    return applied
+
+
+def _own_nodes(fn: ast.AST):
+    """Nodes of a function, not descending into nested function / class definitions."""
+    stack = list(ast.iter_child_nodes(fn))
+    while stack:
+        n = stack.pop()
+        yield n
+        if isinstance(n, (ast.FunctionDef, ast.AsyncFunctionDef, ast.ClassDef, ast.Lambda)):
+            continue
+        stack.extend(ast.iter_child_nodes(n))
+
+
+# ---------------------------------------------------------------------------------------------------- for x in _generator(...)
+def inline_simple_generators(trees: Dict[str, ast.Module]) -> List[str]:
+    """``for T in _gen(args): BODY`` where ``_gen`` is a private module-level generator of the same module (plain ``yield E``
+    statements, no return, no nested definitions) that is used nowhere else, and BODY neither breaks nor continues the loop, is
+    the generator's body with every ``yield E`` replaced by ``T = E; BODY`` - the loop the schedule was extracted from.  The
+    generator's locals are renamed apart; parameters it never rebinds are replaced by the (name / constant) arguments."""
+    applied: List[str] = []
+    for mod, tree in trees.items():
+        gens: Dict[str, ast.FunctionDef] = {}
+        for st in tree.body:
+            if not (isinstance(st, ast.FunctionDef) and st.name.startswith("_") and not st.decorator_list):
+                continue
+            own = list(_own_nodes(st))
+            ys = [n for n in own if isinstance(n, ast.Yield)]
+            if not ys or any(isinstance(n, (ast.YieldFrom, ast.Return, ast.FunctionDef, ast.Lambda, ast.ClassDef, ast.Global, ast.Nonlocal,
+                                            ast.Try, ast.With)) for n in own):
+                continue
+            ystm = [n for n in own if isinstance(n, ast.Expr) and isinstance(n.value, ast.Yield) and n.value.value is not None]
+            a = st.args
+            if len(ystm) != len(ys) or a.vararg or a.kwarg or a.posonlyargs or a.kwonlyargs:
+                continue
+            gens[st.name] = st
+        if not gens:
+            continue
+        uses: Dict[str, int] = {}
+        for x in ast.walk(tree):
+            if isinstance(x, ast.Name) and x.id in gens:
+                uses[x.id] = uses.get(x.id, 0) + 1
+
+        def own_loop_jumps(body: List[ast.stmt]) -> bool:
+            for s in body:
+                if isinstance(s, (ast.Break, ast.Continue)):
+                    return True
+                if isinstance(s, (ast.For, ast.While, ast.FunctionDef, ast.ClassDef, ast.AsyncFor)):
+                    if isinstance(s, (ast.For, ast.While)) and own_loop_jumps(s.orelse):
+                        return True
+                    continue
+                for fld in ("body", "orelse", "finalbody"):
+                    b = getattr(s, fld, None)
+                    if isinstance(b, list) and own_loop_jumps(b):
+                        return True
+                for h in getattr(s, "handlers", []) or []:
+                    if own_loop_jumps(h.body):
+                        return True
+            return False
+
+        sites: Dict[str, int] = {}
+
+        class T(ast.NodeTransformer):
+            def visit_For(self, node: ast.For):
+                self.generic_visit(node)
+                it = node.iter
+                if not (isinstance(it, ast.Call) and isinstance(it.func, ast.Name) and it.func.id in gens):
+                    return node
+                g = gens[it.func.id]
+                if node.orelse or own_loop_jumps(node.body) or any(isinstance(a_, ast.Starred) for a_ in it.args) \
+                        or any(k.arg is None for k in it.keywords):
+                    return node
+                params = [p.arg for p in g.args.args]
+                bound: Dict[str, ast.AST] = {}
+                for p, a_ in zip(params, it.args):
+                    bound[p] = a_
+                for k in it.keywords:
+                    if k.arg not in params or k.arg in bound:
+                        return node
+                    bound[k.arg] = k.value
+                defaults = dict(zip(params[len(params) - len(g.args.defaults):], g.args.defaults))
+                for p in params:
+                    if p not in bound:
+                        if p not in defaults:
+                            return node
+                        bound[p] = defaults[p]
+                if len(it.args) > len(params):
+                    return node
+                stored = {x.id for x in _own_nodes(g) if isinstance(x, ast.Name) and isinstance(x.ctx, (ast.Store, ast.Del))}
+                prefix = g.name.lstrip("_") + "__"
+                ren: Dict[str, ast.AST] = {}
+                pre: List[ast.stmt] = []
+                for p in params:
+                    if p not in stored and isinstance(bound[p], (ast.Name, ast.Constant)):
+                        ren[p] = bound[p]
+                    else:
+                        ren[p] = ast.Name(id=prefix + p, ctx=ast.Load())
+                        pre.append(ast.Assign(targets=[ast.Name(id=prefix + p, ctx=ast.Store())], value=copy.deepcopy(bound[p])))
+                for v in stored:
+                    if v not in params:
+                        ren[v] = ast.Name(id=prefix + v, ctx=ast.Load())
+                loop_body, target = node.body, node.target
+
+                class R(ast.NodeTransformer):
+                    def visit_Name(self, n: ast.Name):
+                        if n.id in ren:
+                            r = copy.deepcopy(ren[n.id])
+                            if isinstance(r, ast.Name):
+                                r.ctx = type(n.ctx)()
+                            return ast.copy_location(r, n)
+                        return n
+
+                    def visit_Expr(self, n: ast.Expr):
+                        if isinstance(n.value, ast.Yield):
+                            val = self.visit(copy.deepcopy(n.value.value))
+                            return [ast.Assign(targets=[copy.deepcopy(target)], value=val)] + copy.deepcopy(loop_body)
+                        return self.generic_visit(n)
+
+                body = [R().visit(copy.deepcopy(s)) for s in g.body
+                        if not (isinstance(s, ast.Expr) and isinstance(s.value, ast.Constant) and isinstance(s.value.value, str))]
+                flat: List[ast.stmt] = []
+                for b in body:
+                    flat.extend(b if isinstance(b, list) else [b])
+                out = pre + flat
+                for s in out:
+                    for x in ast.walk(s):
+                        if not hasattr(x, "lineno"):
+                            ast.copy_location(x, node)
+                    ast.fix_missing_locations(s)
+                sites[g.name] = sites.get(g.name, 0) + 1
+                applied.append(f"{mod}: generator {g.name} inlined into the loop at line {node.lineno}")
+                return out
+
+        # only generators every use of which is such a loop: decided by a dry run on a copy
+        probe = copy.deepcopy(tree)
+        applied_before = len(applied)
+        T().visit(probe)
+        ok = {g for g in gens if sites.get(g, 0) == uses.get(g, 0) and sites.get(g, 0) > 0}
+        del applied[applied_before:]
+        sites.clear()
+        gens = {k: v for k, v in gens.items() if k in ok}
+        if not gens:
+            continue
+        T().visit(tree)
+        tree.body = [st for st in tree.body if not (isinstance(st, ast.FunctionDef) and st.name in gens)]
+    return applied
